@@ -268,6 +268,10 @@ Definition ark_ops : list entry :=
     ("el.deser", ("L", unL (fun b => out_dec (if Nat.ltb (length b) 32 then DErrIo else decompress32_ark (firstn 32 b)))));
     ("af.deser", ("L", unL (fun b => match (if Nat.ltb (length b) 32 then DErrIo else decompress32_ark (firstn 32 b)) with
                                     | DOk p => 1 :: out_apt (to_affine p) | e => out_dec e end)));
+    (* the same stream deserialisers fed by a reader that delivers one byte per read call: the verdict may not depend on how the bytes arrive *)
+    ("el.deser.drip", ("L", unL (fun b => out_dec (if Nat.ltb (length b) 32 then DErrIo else decompress32_ark (firstn 32 b)))));
+    ("af.deser.drip", ("L", unL (fun b => match (if Nat.ltb (length b) 32 then DErrIo else decompress32_ark (firstn 32 b)) with
+                                    | DOk p => 1 :: out_apt (to_affine p) | e => out_dec e end)));
     ("el.hash", ("E", un hash_enc)); ("af.hash", ("A", unA (fun a => hash_enc (oa a))));
     ("el.is_zero", ("E", un (fun p => out_bool (is_identity p)))); ("af.is_zero", ("A", unA (fun a => out_bool (af_is_zero a))));
     ("af.xy", ("A", unA (fun a => if af_is_zero a then 0 :: nil else 1 :: out_apt a)));
